@@ -18,6 +18,8 @@ ops:
                                         ptt.SetupNewUser with a stale .fresh: the clean-up sweep (tryCleanUser → killUser)
                                         removed the accounts in <killed> (observed, ascending); <slot> as for newuser
   resetconc <G> <N> <seed>              concurrent stress (judged by the oracle only; the model answers `done`)
+  chemail <uid> <text>                  ptt.ChangeEmail: a field writer (the Email field of the record, nothing else)
+  resetconcfld <G> <N> <seed>           field writers (ptt.ChangePasswd, ptt.ChangeEmail) racing with money writers on the SAME users
   resetconcrec <G> <N> <seed>           the same with whole-record writers, readers and a registrar
   set <uid> <money> | de <uid> <money> | get <uid>            (int32 decimals)
   syncquery <uid>                       ptt.GetUser -> passwdSyncQuery
@@ -231,6 +233,21 @@ def stepC20 (d : DState) (ws : List String) : DState × String :=
   match ws with
   | ["layout"] =>
       (st, s!"max={Gen.Money.maxUsers} sz={Gen.Money.recSize} off={Gen.Money.moneyOffset} fsz={Gen.Money.moneySize} lvl={Gen.Money.userLevelOffset} bools={if Gen.Money.boolOffsets.isEmpty then "-" else ",".intercalate (Gen.Money.boolOffsets.map toString)}")
+  | ["resetconcfld", g, n, seed] =>
+      match parseNat g 2, parseNat n 6, parseNat seed 19 with
+      | some g, some n, some _ =>
+          if 1 ≤ g ∧ 2 * g ≤ Gen.Money.maxUsers ∧ 1 ≤ n ∧ n ≤ 100000 then ({ st := none, stale := [], ids := [], cd := true }, "done")
+          else (st, "bad-op")
+      | _, _, _ => (st, "bad-op")
+  | ["chemail", u, text] =>
+      match st.st, parseI32 u with
+      | some s, some u =>
+          let cs := text.toList
+          if ¬ (1 ≤ cs.length ∧ cs.length ≤ 40 ∧ cs.all (fun c => c.isAlphanum || c == '@' || c == '.')) then (st, "bad-op") else
+          if (1 ≤ u ∧ u ≤ (Gen.Money.maxUsers : Int)) ∧ cstr (st.ids.getD (u - 1).toNat []) = [] then (st, "no-name") else
+          let r := fieldWrite s u Gen.Money.emailOffset (copyInto Gen.Money.emailSize (cs.map Char.toNat))
+          ({ st with st := some r.1 }, showErr r.2 ++ " " ++ observe2 r.1 u)
+      | _, _ => (st, "bad-op")
   | ["resetconcrec", g, n, seed] =>
       match parseNat g 2, parseNat n 6, parseNat seed 19 with
       | some g, some n, some _ =>
